@@ -42,7 +42,7 @@ FILES = {
     "include/mpmc_stack.h": ["C20"],
     "include/dist_fifo.h": ["C20"],
     "include/fiber_multi_signal.h": ["C20"],
-    "include/fiber_signal.h": ["C11"],
+    "include/fiber_signal.h": ["C11", "C20"],
     "include/fiber_channel.h": ["C11"],
     "include/fiber_bounded_channel.h": ["C11"],
     "include/fiber_multi_channel.h": ["C11"],
